@@ -345,7 +345,7 @@ func init() {
 	register(&PropDef{
 		ID:    "C03",
 		Level: "model_checking",
-		Rule: "family F-tol (2-4(5) sequences, every placement of 1-3 failing sequences, t in {-1,0,1,2} and, up to 3 sequences, the other negative values -2 and MinInt32, c in {1,2,3}, followed by a second block), F-chk and sharp scenarios; " +
+		Rule: "family F-tol (2-4(5) sequences, every placement of 1-3 failing sequences, t in {-1,0,1,2} and, up to 3 sequences, the other negative values -2 and MinInt32, c in {1,2,3}, followed by a second block), F-chk, sharp scenarios and the block-level part of F-cont (a continuous check of the block failing at its k-th run); " +
 			"every order of visible operations within the deviation bound; state predicates over the event log (which sequences ended, which were started) and the final stored plan; " +
 			"distinct_nontrivial = distinct states in which two or more logical threads were enabled",
 		Assumptions: []string{"a free worker-pool runner always exists (64 runners)", "I/O granularity", "a block interrupted by a plan-level continuous-check failure is exempt from 'Failed exactly when' (the statement is silent on aborted blocks)"},
@@ -368,6 +368,18 @@ func init() {
 					continue
 				}
 				items = append(items, explore("C03", sc, b+1, true))
+			}
+			// "or one of its checks failed": a continuous check of the block failing at its k-th run, whatever the
+			// sequences do (quick: every deviation costs, as in C07; thorough adds the free switches)
+			for _, sc := range FamilyCont(tier) {
+				if !strings.HasPrefix(sc.Name, "cont-block-") && !strings.HasPrefix(sc.Name, "cont-min-block-") {
+					continue
+				}
+				if tier == "thorough" {
+					items = append(items, exploreCap("C03", sc, b-1, true, 300))
+				} else {
+					items = append(items, exploreCap("C03", sc, 1, false, 30))
+				}
 			}
 			// the tolerance across a crash: every durable state of the failing-sequence scenarios is a crash point
 			var crash []*Scenario
